@@ -260,4 +260,30 @@ def check(ctx, build=None):
 
 
 def replay(ctx, path):
-    return check(ctx)
+    """re-run the package of the stored seed; judge the stored function"""
+    obj = json.load(open(path))
+    inp = obj.get("input", {})
+    if inp.get("proto") != "c03" or "seed" not in inp or "function" not in inp:
+        return check(ctx)
+    C.ensure_built("C03", ["guards"], need_harness=False, extra_go=gomod.EXTRA_GO)
+    fns, src = package(inp["seed"])
+    scratch = C.scratch()
+    try:
+        root = os.path.join(scratch, "m")
+        gomod.write_module(root, {"p": {"p.go": src}})
+        rc, gerr, text = k4.translate(root, flags=())
+        if text is None:
+            print("goose rejects the package:", gerr[-500:])
+            return 1
+        nat, _ = native_outcomes(root, fns, 12, race=False)
+        rep = k4.gl_session(text, ["explore " + inp["function"]])[1].split()
+    finally:
+        shutil.rmtree(scratch, ignore_errors=True)
+    gl = sorted(bytes.fromhex(x).decode() for x in rep[3:] if x != "-")
+    go = dict(nat[inp["function"]])
+    det = [f[3] for f in fns if f[0] == inp["function"]][0]
+    missing = [o for o in go if ("value " + o) not in gl]
+    bad = bool(missing) or (det and len(go) == 1 and set(gl) != {"value " + next(iter(go))})
+    print(json.dumps({"go_outcomes": go, "gooselang_outcomes": gl, "states": int(rep[1])}, indent=1))
+    print("verdict:", "violates the property" if bad else "meets the property")
+    return 1 if bad else 0
